@@ -18,7 +18,7 @@ from datetime import date, datetime, timedelta, timezone
 import dateutil.rrule as DR
 
 from mc import env  # noqa: F401
-from icalendar.prop import vRecur, vMonth
+from icalendar.prop import vRecur, vMonth, vWeekday, vInt
 from icalendar.cal import Event
 from icalendar.timezone import tzp
 
@@ -32,11 +32,12 @@ PARTS = {
     "BYSECOND": (0, (0, 30), 59),
     "BYMINUTE": (0, (15, 45)),
     "BYHOUR": (0, (9, 17), 23),
-    "BYDAY": ("MO", ("TU", "TH"), "+1MO", "-1SU", ("1FR", "-2SA")),
-    "BYMONTHDAY": (1, -1, (1, 15, -1)),
+    # the last entries mix the library's own typed values (what decoding yields) with plain ones in one list
+    "BYDAY": ("MO", ("TU", "TH"), "+1MO", "-1SU", ("1FR", "-2SA"), (vWeekday("1MO"), "-1fr"), ("we", vWeekday("MO"))),
+    "BYMONTHDAY": (1, -1, (1, 15, -1), (vInt(1), -1)),
     "BYYEARDAY": (1, -1, (100, -100)),
     "BYWEEKNO": (1, -1, (20, 53)),
-    "BYMONTH": (1, (6, 12), "5L", (5, "5L"), ("7L", 7), "12L", ("10L", 3, "11L", 12)),
+    "BYMONTH": (1, (6, 12), "5L", (5, "5L"), ("7L", 7), "12L", ("10L", 3, "11L", 12), (vMonth(3), 9, "4L")),
     "BYSETPOS": (1, -1, (1, -1)),
     "WKST": ("MO", "SU"),
     "RSCALE": ("GREGORIAN", "HEBREW"),
@@ -182,7 +183,7 @@ def ref_rrule(supplied, dtstart):
         elif p == "BYDAY":
             out = []
             for x in vals:
-                m = re.match(r"([+-]?\d+)?([A-Z]{2})$", x)
+                m = re.match(r"([+-]?\d+)?([A-Z]{2})$", str(x).upper())
                 out.append(WD[m.group(2)](int(m.group(1))) if m.group(1) else WD[m.group(2)])
             kw["byweekday"] = out
         elif p == "WKST":
